@@ -110,7 +110,11 @@ func runCheck(o checkOpts) checkResult {
 		if !strings.HasPrefix(path, modPath) {
 			path = modPath + "/" + path
 		}
-		targets = []propFn{{path, parts[1]}}
+		key, tags := parts[1], ""
+		if i := strings.Index(key, "@"); i >= 0 {
+			key, tags = key[:i], key[i+1:]
+		}
+		targets = []propFn{{path, key, tags}}
 	} else {
 		targets = eng.propertyFuncs(o.property)
 		if len(targets) == 0 {
@@ -122,12 +126,24 @@ func runCheck(o checkOpts) checkResult {
 	var fxs []*FuncCtx
 	var genErrs []string
 	seen := map[string]bool{}
+	engines := map[string]*Engine{"": eng}
 	for _, t := range targets {
-		if seen[t.pkg+":"+t.key] {
+		if seen[t.pkg+":"+t.key+"@"+t.tags] {
 			continue
 		}
-		seen[t.pkg+":"+t.key] = true
-		fx, err := eng.verifyFunc(t.pkg, t.key)
+		seen[t.pkg+":"+t.key+"@"+t.tags] = true
+		te := engines[t.tags]
+		if te == nil {
+			// a build-tag variant of the package (e.g. the pre-go1.20 xor implementation)
+			var lerr error
+			te, lerr = loadEngine(o.repo, []string{"./" + strings.TrimPrefix(t.pkg, modPath+"/")}, "verif,"+t.tags)
+			if lerr != nil {
+				genErrs = append(genErrs, lerr.Error())
+				continue
+			}
+			engines[t.tags] = te
+		}
+		fx, err := te.verifyFunc(t.pkg, t.key)
 		if err != nil {
 			genErrs = append(genErrs, err.Error())
 			continue
